@@ -897,5 +897,40 @@ def sim_print(*args, **kwargs):
     s.printed.append(' '.join(str(a) for a in args)[:300])
 
 
+def _others_can_run(s, me):
+  now = s.now_us
+  for t in s.threads:
+    if t is me:
+      continue
+    if t.state == kernel.RUNNABLE:
+      return True
+    if t.state == kernel.BLOCKED:
+      if t.desc == 'stdout':
+        continue
+      if t.cond() or (t.wake_at is not None and t.wake_at <= now):
+        return True
+    elif t.state == kernel.SLEEPING and t.wake_at <= now:
+      return True
+  return False
+
+
 def sim_pprint(obj, *a, **k):
-  sim_print(repr(obj)[:300])
+  # pprint walks a container item by item in Python code: it can be pre-empted between two items (and a container
+  # that another thread changes meanwhile makes the iterator raise, as it does under the real pprint)
+  if isinstance(obj, (list, tuple, set, frozenset, dict, collections.deque)):
+    parts = []
+    s = current_sim()
+    slow = getattr(s, 'slow_stdout', 0) if s is not None else 0
+    for x in obj:
+      _y(60)
+      if slow and current_ctl() is not None:
+        # injected fault: the stream is slow, the writer stays in write() while the other threads make `slow` more
+        # steps or until none of them can run at this instant; no virtual time passes
+        target, slow, me = s.steps + slow, 0, current_ctl()
+        s.fault('slow_stdout')
+        s.block(lambda: s.steps >= target or not _others_can_run(s, me), desc='stdout')
+      if len(parts) < 20:
+        parts.append(repr(x)[:60])
+    sim_print('[' + ', '.join(parts) + ']')
+  else:
+    sim_print(repr(obj)[:300])
